@@ -5,3 +5,4 @@ CONSTANT RepOrder <- Order3
 SPECIFICATION Spec
 INVARIANT BehaviourExport
 CHECK_DEADLOCK FALSE
+INVARIANT UniverseExport
